@@ -66,7 +66,37 @@ static int family_ok(EVP_PKEY *k, const struct alginfo *a)
 	}
 }
 
+/* A JWK cannot say "PSS only": an RSA-PSS key used with RS* stands for the plain RSA key with the same
+ * numbers.  Returns a new reference (the key itself when it is not RSA-PSS). */
+static EVP_PKEY *plain_rsa(EVP_PKEY *k)
+{
+	OSSL_PARAM *params = NULL;
+	EVP_PKEY *out = NULL;
+	EVP_PKEY_CTX *c = NULL;
+	if (EVP_PKEY_base_id(k) != EVP_PKEY_RSA_PSS) { EVP_PKEY_up_ref(k); return k; }
+	if (EVP_PKEY_todata(k, EVP_PKEY_KEYPAIR, &params) != 1 &&
+	    EVP_PKEY_todata(k, EVP_PKEY_PUBLIC_KEY, &params) != 1) return NULL;
+	c = EVP_PKEY_CTX_new_from_name(NULL, "RSA", NULL);
+	if (c && EVP_PKEY_fromdata_init(c) == 1) EVP_PKEY_fromdata(c, &out, EVP_PKEY_KEYPAIR, params);
+	EVP_PKEY_CTX_free(c);
+	OSSL_PARAM_free(params);
+	ERR_clear_error();
+	return out;
+}
+
+static int do_verify1(EVP_PKEY *k, const struct alginfo *a, const unsigned char *msg, size_t ml, const unsigned char *sig, size_t sl);
 static int do_verify(EVP_PKEY *k, const struct alginfo *a, const unsigned char *msg, size_t ml, const unsigned char *sig, size_t sl)
+{
+	int ok;
+	if (a->kind != 0) return do_verify1(k, a, msg, ml, sig, sl);
+	k = plain_rsa(k);
+	if (!k) return 0;
+	ok = do_verify1(k, a, msg, ml, sig, sl);
+	EVP_PKEY_free(k);
+	return ok;
+}
+
+static int do_verify1(EVP_PKEY *k, const struct alginfo *a, const unsigned char *msg, size_t ml, const unsigned char *sig, size_t sl)
 {
 	int ok = 0;
 	unsigned char *der = NULL;
@@ -89,6 +119,8 @@ static int do_verify(EVP_PKEY *k, const struct alginfo *a, const unsigned char *
 	if (a->kind == 1) {
 		if (EVP_PKEY_CTX_set_rsa_padding(pc, RSA_PKCS1_PSS_PADDING) <= 0) goto out;
 		if (EVP_PKEY_CTX_set_rsa_pss_saltlen(pc, RSA_PSS_SALTLEN_AUTO) <= 0) goto out;
+	} else if (a->kind == 0) {
+		if (EVP_PKEY_CTX_set_rsa_padding(pc, RSA_PKCS1_PADDING) <= 0) goto out;
 	}
 	ok = EVP_DigestVerify(c, sig, sl, msg, ml) == 1;
 out:
@@ -98,7 +130,19 @@ out:
 	return ok;
 }
 
+static int do_sign1(EVP_PKEY *k, const struct alginfo *a, const unsigned char *msg, size_t ml, unsigned char **out, size_t *ol);
 static int do_sign(EVP_PKEY *k, const struct alginfo *a, const unsigned char *msg, size_t ml, unsigned char **out, size_t *ol)
+{
+	int ok;
+	if (a->kind != 0) return do_sign1(k, a, msg, ml, out, ol);
+	k = plain_rsa(k);
+	if (!k) return 0;
+	ok = do_sign1(k, a, msg, ml, out, ol);
+	EVP_PKEY_free(k);
+	return ok;
+}
+
+static int do_sign1(EVP_PKEY *k, const struct alginfo *a, const unsigned char *msg, size_t ml, unsigned char **out, size_t *ol)
 {
 	int ok = 0;
 	EVP_MD_CTX *c = EVP_MD_CTX_new();
@@ -110,6 +154,8 @@ static int do_sign(EVP_PKEY *k, const struct alginfo *a, const unsigned char *ms
 	if (a->kind == 1) {
 		if (EVP_PKEY_CTX_set_rsa_padding(pc, RSA_PKCS1_PSS_PADDING) <= 0) goto out;
 		if (EVP_PKEY_CTX_set_rsa_pss_saltlen(pc, RSA_PSS_SALTLEN_DIGEST) <= 0) goto out;
+	} else if (a->kind == 0) {
+		if (EVP_PKEY_CTX_set_rsa_padding(pc, RSA_PKCS1_PADDING) <= 0) goto out;
 	}
 	if (EVP_DigestSign(c, NULL, &sl, msg, ml) != 1) goto out;
 	sig = malloc(sl);
